@@ -393,6 +393,7 @@ type OracleC12 struct {
 	prevVoter map[string]disputetypes.Voter
 	teamAt    map[uint64]string // dispute id -> team address when the dispute was first seen
 	voterRep  map[string]string // "<dispute>|<voter>" -> the reporter the voter had selected at the end of the block it voted in
+	prevTeam  string            // team address at the end of the previous block
 }
 
 func NewOracleC12(t *DisputeTracker) *OracleC12 {
@@ -497,6 +498,7 @@ func (o *OracleC12) AfterBlock(c *Chain, b *BlockCtx) []*Violation {
 		curVoter[fmt.Sprintf("%d|%s", vr.ID, string(vr.Voter))] = vr.Rec
 	}
 	defer func() { o.prevVoter = curVoter }()
+	defer func() { o.prevTeam = string(v.TeamAddr()) }()
 	for _, vr := range v.Voters() {
 		k := fmt.Sprintf("%d|%s", vr.ID, string(vr.Voter))
 		if _, seen := o.voterRep[k]; !seen {
@@ -547,10 +549,15 @@ func (o *OracleC12) AfterBlock(c *Chain, b *BlockCtx) []*Violation {
 			// weights: tips and reporting stake as of the dispute's block, balance now, fixed team weight
 			d := o.t.cur[m.U]
 			wantTips := o.t.tipsAt(string(addr), d.D.BlockNumber)
+			// the team address may change inside the block (before or after this vote): the voter was the team when it
+			// voted if it is the team at the end of this block or was at the end of the previous one; when the two
+			// differ both readings are accepted
 			wantTeam := new(big.Int)
-			if string(addr) == string(team) {
+			isNow, wasBefore := string(addr) == string(team), o.prevTeam != "" && string(addr) == o.prevTeam
+			if isNow || wasBefore {
 				wantTeam = big.NewInt(25_000_000)
 			}
+			teamAmbiguous := isNow != wasBefore && o.prevTeam != ""
 			selTokens := new(big.Int)
 			if st, err := b.Ref.App.ReporterKeeper.GetDelegatorTokensAtBlock(v.ctx, addr, d.D.BlockNumber); err == nil && !st.IsNil() {
 				selTokens = st.BigInt()
@@ -562,6 +569,9 @@ func (o *OracleC12) AfterBlock(c *Chain, b *BlockCtx) []*Violation {
 			}
 			sumParts := new(big.Int).Add(new(big.Int).Add(wantTeam, wantTips), new(big.Int).Add(rec.ReporterPower.BigInt(), rec.TokenholderPower.BigInt()))
 			// ReporterPower of a reporter may have been reduced later in this block by a selector's vote; compare only when equal blocks are simple
+			if teamAmbiguous && rec.VoterPower.BigInt().Cmp(new(big.Int).Sub(sumParts, wantTeam)) == 0 {
+				sumParts.Sub(sumParts, wantTeam) // it voted while it was not (yet / any more) the team
+			}
 			if rec.VoterPower.BigInt().Cmp(sumParts) != 0 && !o.laterSelectorVote(c, b, i, addr) {
 				out = append(out, o.v(b.H, "voting", "Voter", "voter-power-ne-parts", "voter %s on dispute %d: recorded power %s, parts: team %s + tips-at-dispute-block %s + reporting stake %s + token weight %s", addr, m.U, rec.VoterPower, wantTeam, wantTips, rec.ReporterPower, rec.TokenholderPower))
 			}
@@ -808,7 +818,15 @@ func (o *OracleC12) checkTally(c *Chain, b *BlockCtx, v *View, d DisputeInfo, cn
 			} else if a3.Cmp(s3) > 0 && a3.Cmp(i3) > 0 {
 				w = "against"
 			}
-			if w == got {
+			// the chain works with six decimals: leaders closer than that are a tie for it (settled as invalid)
+			type c3 struct {
+				n string
+				v *big.Rat
+			}
+			l3 := []c3{{"support", s3}, {"against", a3}, {"invalid", i3}}
+			sort.SliceStable(l3, func(i, j int) bool { return l3[i].v.Cmp(l3[j].v) > 0 })
+			nearTie := new(big.Rat).Sub(l3[0].v, l3[1].v).Cmp(big.NewRat(4, 1_000_000)) <= 0
+			if w == got || (nearTie && (got == "invalid" || got == l3[0].n || got == l3[1].n)) {
 				cls += ":token-holders-left-out-after-early-quorum"
 			}
 		}
